@@ -429,7 +429,17 @@ pub fn gen_graph_project(rng: &mut Rng, o: &GraphOpts, n: usize, edges: &BTreeSe
                 Some(d) => d.lossy(),
                 None => continue,
             };
-            if let Some(pos) = text.find(line.as_str()) {
+            // the dependency line itself: a whole line, not a line that merely quotes it
+            let mut found: Option<usize> = None;
+            let mut off = 0;
+            for l in text.split_inclusive('\n') {
+                if l.trim_end_matches(['\r', '\n']) == line.as_str() {
+                    found = Some(off);
+                    break;
+                }
+                off += l.len();
+            }
+            if let Some(pos) = found {
                 // end of that line
                 let after = pos + line.len();
                 if let Some(nl) = text[after..].find('\n') {
